@@ -54,36 +54,14 @@ func init() {
 		}
 
 		// --- buildCond: strings.HasPrefix(op, "fields:") and len(op) < 8 ; which mapping classifies the operand
+		lqlConsts := c05LoadConsts("pkg/lql")
 		prefix, minLen, classMap := "", -1, ""
 		if fd := funcDecl(wf, "whereExpFuncBuilder", "buildCond"); fd == nil {
 			problem("whereExpFuncBuilder.buildCond not found")
 		} else {
-			ast.Inspect(fd.Body, func(n ast.Node) bool {
-				switch e := n.(type) {
-				case *ast.CallExpr:
-					if se, ok := e.Fun.(*ast.SelectorExpr); ok {
-						if se.Sel.Name == "HasPrefix" && len(e.Args) == 2 {
-							if bl, ok := e.Args[1].(*ast.BasicLit); ok {
-								prefix, _ = strconv.Unquote(bl.Value)
-							}
-						}
-						if (se.Sel.Name == "ToLower" || se.Sel.Name == "ToUpper") && classMap == "" {
-							classMap = se.Sel.Name
-						}
-					}
-				case *ast.BinaryExpr:
-					if e.Op == token.LSS {
-						if ce, ok := e.X.(*ast.CallExpr); ok {
-							if id, ok := ce.Fun.(*ast.Ident); ok && id.Name == "len" {
-								if bl, ok := e.Y.(*ast.BasicLit); ok {
-									minLen, _ = strconv.Atoi(bl.Value)
-								}
-							}
-						}
-					}
-				}
-				return true
-			})
+			// literals, named constants and len(constant) are resolved; rejecting (`!HasPrefix || len < N`) and accepting
+			// (`HasPrefix && len > N`) forms are normalised (c05_consts.go)
+			prefix, minLen, classMap = c05PrefixFacts(fd, lqlConsts)
 			if prefix == "" || minLen < 0 || classMap == "" {
 				problem("buildCond: prefix literal / minimal length / case mapping not found")
 			}
@@ -101,16 +79,7 @@ func init() {
 		if fldFd == nil {
 			problem("whereExpFuncBuilder.buildFldCond not found")
 		} else {
-			ast.Inspect(fldFd.Body, func(n ast.Node) bool {
-				if se, ok := n.(*ast.SliceExpr); ok && cut < 0 {
-					if id, ok := se.X.(*ast.Ident); ok && id.Name == "fldName" && se.High == nil {
-						if bl, ok := se.Low.(*ast.BasicLit); ok {
-							cut, _ = strconv.Atoi(bl.Value)
-						}
-					}
-				}
-				return true
-			})
+			cut = c05CutFact(fldFd, lqlConsts)
 			if cut < 0 {
 				problem("buildFldCond: fldName[N:] not found")
 			}
